@@ -64,7 +64,7 @@ func (r *Run) BindingSelfTest(name, module, config string, lines [][]byte, cs []
 	r.Extra["binding_self_tests"] = append(st, map[string]any{"trace_spec": module, "trace": name, "corruptions_applied": applied, "rejected": rejected, "kinds": names})
 	r.mu.Unlock()
 	if applied == 0 {
-		r.Infra("binding self-test %s: no corruption applied to the sample trace", name)
+		r.Logf("binding self-test %s: no corruption applied to the sample trace", name)
 	}
 }
 
